@@ -147,6 +147,9 @@ func (l *recLife) nested(ctx context.Context, op string, f func() error) error {
 	if c == "" {
 		return f()
 	}
+	if w.or != nil {
+		w.or.beforeFirstEffect(w, c)
+	}
 	ent := c + ">"
 	w.log(Event{Kind: "CALL", Ent: ent, Inc: l.st.inc, Note: op + " " + PipelineID})
 	err := f()
@@ -181,6 +184,9 @@ func (l *recLife) StopAndWait(ctx context.Context, id string) error {
 }
 
 func (l *recLife) ReconfigureProcessor(ctx context.Context, pipelineID, processorID string) error {
+	if c := clientOf(ctx); c != "" && l.st.w.or != nil {
+		l.st.w.or.beforeFirstEffect(l.st.w, c)
+	}
 	err := l.st.life.ReconfigureProcessor(ctx, pipelineID, processorID)
 	l.rec(ctx, "reconfigure:"+processorID, err)
 	return err
@@ -213,6 +219,10 @@ type apCall struct {
 	digestAtCall   string
 	planNowDiffers bool
 	dbFaults       int // store faults injected while the call ran
+	st             *Stack
+	desired        pconfig.Pipeline
+	hash           string
+	firstChecked   bool
 }
 
 type apState struct {
@@ -278,6 +288,25 @@ func (s *SimStore) cfgDigest() string {
 		h.Write(b)
 	}
 	return hex.EncodeToString(h.Sum(nil))[:16]
+}
+
+// beforeFirstEffect runs right before the first thing an apply call does to the world (a
+// lifecycle call or the opening of its store transaction), i.e. under the engine's own
+// per-pipeline lock and before the call has changed anything: a plan computed at this very
+// moment must be the plan that was presented, whatever other applies ran in between.
+func (o *Oracles) beforeFirstEffect(w *World, client string) {
+	c := o.ap.inFlight[client]
+	if c == nil || c.firstChecked || c.st == nil {
+		return
+	}
+	c.firstChecked = true
+	now, err := c.st.provisioner().Plan(context.Background(), c.desired)
+	if err != nil {
+		return
+	}
+	if now.Hash != c.hash {
+		w.violate("C16", "stale-plan-applied", fmt.Sprintf("apply %q starts to take effect although the plan for its desired configuration is no longer the one that was presented (the state changed since it was planned): presented %.12s, current %.12s", c.kind, c.hash, now.Hash))
+	}
 }
 
 // onStoreWrite is called by the store for every successful durable change made on behalf
@@ -445,7 +474,7 @@ func (s *Sim) applyOnce(client string, kind, target string, rev int, allow, open
 		s.applyOnce(client, twin, "", rev+1000, true, false, false)
 	}
 	// ---- apply
-	call := &apCall{kind: kind, allow: allow, restartClass: restart, runningAt: engineSaysRunning(w.memStatus()), digestAtCall: w.db.cfgDigest()}
+	call := &apCall{kind: kind, allow: allow, restartClass: restart, runningAt: engineSaysRunning(w.memStatus()), digestAtCall: w.db.cfgDigest(), st: st, desired: desired, hash: plan.Hash}
 	// what a plan computed right now looks like: if it differs from the presented one, the
 	// presented plan no longer matches the current state (a state change that yields the very
 	// same plan - same changes, same desired state - does not make it stale)
